@@ -19,7 +19,7 @@ def frame_tasks(tier, headers=True):
 
 def misc_frames():
     out = []
-    bodies = [b'\x00', b'\xce', b'AMQP', b'AMQP\x00\x00\x09\x01',
+    bodies = [b'', b'\x00', b'\xce', b'AMQP', b'AMQP\x00\x00\x09\x01',
               refcodec.HEARTBEAT, b'\x01\x00\x01\x00\x00\x00\x04',
               bytes(range(256)), b'a' * 4088, b'\xce' * 17]
     for i, b in enumerate(bodies):
